@@ -96,4 +96,19 @@ CONTRACTS = {
              ('ties-shape', 'len(result1) == n2 and forall(h, 0, n2, len(result1[h]) == len(result0[h]))'),
              ('ties-values', 'forall(h, 0, n2, forall(j, 0, len(result1[h]), (result1[h][j] == 0 or result1[h][j] == 1)'
                              ' and implies(ties2 == 0, result1[h][j] == 0) and implies(ties2 == 1, result1[h][j] == 1)))')]),
+
+ # C08: first-side lists: between pmin and pmax distinct agents of the other side (T10 for the draws)
+ M + 'create_pref_lists_original': dict(
+    params={'n1': 'int', 'n2': 'int', 'minpreflistlength': 'int', 'maxpreflistlength': 'int', 'ties1': 'real', 'skew': 'real'},
+    locals={'pref_lists_agent1': ('list', ('list', 'int'))}, theory=['listsets'],
+    requires=['n1 >= 1', 'n2 >= 1', '1 <= minpreflistlength', 'minpreflistlength <= maxpreflistlength', 'maxpreflistlength <= n2',
+              '0 <= ties1', 'ties1 <= 1', 'skew > 0'],
+    defs={'list_ok': (['L'], 'minpreflistlength <= len(L) and len(L) <= maxpreflistlength and dupfree(L) and forall(x, implies(x in elems(L), 1 <= x and x <= n2))')},
+    loops={0: dict(invariant=['len(pref_lists_agent1) == n1', 'forall(i, 0, _k, list_ok(pref_lists_agent1[i]))'])},
+    returns=('tuple', ('list', ('list', 'int')), ('list', ('list', 'int'))),
+    ensures=[('one-list-per-first-side-agent', 'len(result0) == n1'),
+             ('between-pmin-and-pmax-distinct-agents-of-the-other-side', 'forall(i, 0, n1, list_ok(result0[i]))'),
+             ('ties-shape', 'len(result1) == n1 and forall(i, 0, n1, len(result1[i]) == len(result0[i]))'),
+             ('ties-values', 'forall(i, 0, n1, forall(j, 0, len(result1[i]), (result1[i][j] == 0 or result1[i][j] == 1)'
+                             ' and implies(ties1 == 0, result1[i][j] == 0) and implies(ties1 == 1, result1[i][j] == 1)))')]),
 }
